@@ -702,6 +702,22 @@ func tableOutcome(w *World, fo *funcOutcome, kfs []knownFinding) {
 		}
 		fo.Res[i] = OblResult{st, "const-eval", 0}
 	}
+	// the literal is what the program uses only if nothing writes the table (or one of its rows) after initialisation
+	{
+		i := len(fo.VC.Obls)
+		k := strings.LastIndex(ts.Table, ".")
+		var gl *ssa.Global
+		if sp := w.SSAPkgs[modPath+"/"+ts.Table[:k]]; sp != nil {
+			gl, _ = sp.Members[ts.Table[k+1:]].(*ssa.Global)
+		}
+		st := "sat"
+		if gl != nil && w.immutableTable(gl) {
+			st = "unsat"
+		}
+		fo.VC.Obls = append(fo.VC.Obls, &Obl{Name: "immutable", Kind: "table", Offset: i, Func: fo.Key,
+			Descr: "the table and its rows are only looked up, ranged over or measured after package initialisation (go/ssa scan, following rows returned to callers)"})
+		fo.Res[i] = OblResult{st, "ssa-scan", 0}
+	}
 	fo.VC.Trusted = []string{"table " + ts.Table + ": go/types constant evaluation of the composite literal; expected content transcribed by hand from " + ts.Source}
 }
 
